@@ -9,6 +9,7 @@ simulation of the unpruned node (`pruned_simulates_unpruned`).  Tied to the code
 -/
 import Verif.Lemmas.Prune
 import Verif.Lemmas.PruneSim
+import Verif.Lemmas.UpdatesPruned
 import Verif.Props.C01
 import Verif.Props.C04
 
@@ -524,5 +525,38 @@ example : (runOps C04.Ure Mgr.init [.add [1, 2], .prune 1, .add [3, 4]]).best = 
 example : minReorgIndex (pruneAll (C01.run C04.Ure Mgr.init [[1, 2]]) [3]) = 2 := by decide
 example : reorgPath C04.Ure (addBlocks.go C04.Ure [3, 4] (C01.run C04.Ure Mgr.init [[1, 2]]) 2).1 2 4 none =
     .ok ([2], [3, 4]) := by rfl
+
+
+/-! ### subscribers of a pruned node (`PruneBlocks`' contract: prune only below what every
+subscriber has processed) -/
+
+/-- **a subscriber that is not behind the pruning is still served**: after any interleaving of
+`AddBlocks` and `PruneBlocks`, for a subscriber standing on the best chain at or above the last
+pruned height (`frontier - 1`) and any `max`, `UpdatesSince` does not fail, returns only applies —
+each of the next best-chain block (a contiguous walk from the subscriber's index) —, at most `max`
+of them, and stops at the tip unless `max` stops it first; the index it ends on is again such a
+subscriber.  Resubmitting old (pruned) blocks in between changes nothing of this: it is part of
+the interleaving. -/
+theorem subscriber_served_after_pruning {U} (hU : WFU U) (ops : List NodeOp) (i max : Nat)
+    (hs : SubP U (runOps U Mgr.init ops) (frontier U ops) i) :
+    ∃ us i', updatesSince U (runOps U Mgr.init ops)
+        ((U (runOps U Mgr.init ops).tip).height - (U i).height) (some i) max [] = .ok us ∧
+      walk U (some i) us = some (some i') ∧ SubP U (runOps U Mgr.init ops) (frontier U ops) i' ∧
+      (∀ u ∈ us, ∃ b, u = .apply b) ∧ (i' = (runOps U Mgr.init ops).tip ∨ us.length ≥ max) ∧
+      us.length ≤ max := by
+  obtain ⟨us, i', h1, h2, h3, h4, h5, h6⟩ :=
+    updatesSince_pruned (pinv_reachable hU ops) max _ i [] hs (Nat.le_refl _)
+  exact ⟨us, i', by simpa using h1, h2, h3, h4, by simpa using h5, by simpa using h6⟩
+
+/-- the tip itself is always such a subscriber (a subscriber that was caught up when the operator
+pruned — even with `PruneBlocks(tip height + 1)` — can follow everything that comes later) -/
+theorem tip_is_served_after_pruning {U} (hU : WFU U) (ops : List NodeOp) :
+    SubP U (runOps U Mgr.init ops) (frontier U ops) (runOps U Mgr.init ops).tip := by
+  have h := pinv_reachable hU ops
+  have hw := h.toWInv
+  refine ⟨hw.bestAt_of_mem hw.tip_mem, ?_⟩
+  have := h.frontier
+  have := hw.length
+  omega
 
 end Verif.C19
